@@ -8,7 +8,7 @@ SELFTEST_PARTS = ("num",)
 WALL_BUDGET = {"quick": 900, "thorough": 7200}
 OPS = ["create_a", "create_b", "write_a", "delete_a", "rename_a_b", "mkdir_d", "rmdir_d", "move_a_d", "rendir_d_e",
        "mkdir_d_s", "create_d_a"]
-OPS_EXT = OPS + ["mkdir_a", "rmdir_a"]          # a folder taking a file's name
+OPS_EXT = OPS + ["mkdir_a", "rmdir_a", "rename_a_c"]          # a folder taking a file's name; a second rename target
 
 
 def norm_hist(hist):
@@ -116,8 +116,9 @@ def jobs(tier):
     if tier == "quick":
         # three-operation shapes of the recorded findings F13 / F18 (two operations fixed, the third free)
         for f in ("oid", "path"):
-            for pre in ([[0, "rename_a_b"], [0, "create_a"]], [[1, "rename_a_b"], [1, "create_a"]], [[0, "rendir_d_e"], [1, "rmdir_d"]], [[1, "rendir_d_e"], [0, "rmdir_d"]]):
-                out.append({"harness": "hist", "params": {"flavour": f, "base": 2, "nops": 3, "slots": 1, "prefix": pre, "ext": False},
+            for pre in ([[0, "rename_a_b"], [0, "create_a"]], [[1, "rename_a_b"], [1, "create_a"]], [[0, "rendir_d_e"], [1, "rmdir_d"]], [[1, "rendir_d_e"], [0, "rmdir_d"]],
+                        [[0, "rename_a_c"], [1, "rename_a_b"]], [[1, "rename_a_c"], [0, "rename_a_b"]]):
+                out.append({"harness": "hist", "params": {"flavour": f, "base": 2, "nops": 3, "slots": 1, "prefix": pre, "ext": pre[0][1] == "rename_a_c"},
                             "label": "%s/base2/3ops/prefix=%s" % (f, "+".join("%d:%s" % (a, b) for a, b in pre))})
     # a folder taking a deleted file's name; one copy becoming unreadable while the other side has an unsynced edit
     for f in (("oid", "path") if tier == "quick" else ("oid", "path", "mixed")):
